@@ -261,3 +261,87 @@ def close(got: float, exact, *operands: float, k: int = 4) -> bool:
     """|got - exact| <= k ulp(max |operand|); exact may be a Fraction."""
     ops = list(operands) + [float(exact), got]
     return abs(Fraction(got) - Fraction(exact)) <= Fraction(ulp_tol(*ops, k=k))
+
+
+# ------------------------------------------------------------ I/O textgrids
+
+
+def io_safe_boundaries(xs):
+    """Sorted distinct times kept further apart than the rounding the C01
+    statement allows (a value within 1e-14 relative of an integer may come back
+    as that integer), so that allowed rounding can never collapse an interval."""
+    out = []
+    for x in sorted(set(xs)):
+        if not out or x - out[-1] > 4e-14 * max(x, 1.0) + 1e-300:
+            out.append(x)
+    return out
+
+
+@st.composite
+def io_tier(draw, style, name, label, is_int=None, max_segments=5, explicit_empty=True):
+    if is_int is None:
+        is_int = draw(st.booleans())
+    m = draw(st.integers(0, max_segments))
+    if style == "wild":
+        bs = io_safe_boundaries(draw(st.lists(wild_time(), min_size=m + 1, max_size=m + 1)))
+    else:
+        bs = draw(boundaries(style, m + 1))
+    m = len(bs) - 1
+    labs = draw(st.lists(st.tuples(st.integers(0, 3), label), min_size=m + 1, max_size=m + 1))
+    entries = []
+    if is_int:
+        for i in range(m):
+            kind, lab = labs[i]
+            if kind > 0:
+                if not explicit_empty and lab == "":
+                    lab = "x"
+                entries.append([bs[i], bs[i + 1], lab])
+        return {"type": "interval", "name": name, "entries": entries, "minT": bs[0], "maxT": bs[-1], "style": style}
+    for i in range(m + 1):
+        kind, lab = labs[i]
+        if kind > 0:
+            if not explicit_empty and lab == "":
+                lab = "x"
+            entries.append([bs[i], lab])
+    return {"type": "point", "name": name, "entries": entries, "minT": bs[0], "maxT": bs[-1], "style": style}
+
+
+@st.composite
+def io_textgrid(draw, rich=True, tokens=True, max_tiers=4, clean=True, styles=("grid", "dec", "wild", "wild"),
+                explicit_empty=True, unique_names=True, token_rate=4):
+    """Textgrid spec for the I/O properties: rich labels/names, all timestamp classes.
+    Format tokens are used in one textgrid out of `token_rate`."""
+    style = draw(st.sampled_from(list(styles)))
+    tokens = tokens and draw(st.integers(1, token_rate)) == 1
+    lab = labels(tokens) if rich else SMALL_LABELS
+    nm = names(tokens) if rich else st.sampled_from(["a", "b", "c", "d", "e"])
+    n = draw(st.integers(1, max_tiers))
+    tiers, used = [], set()
+    for i in range(n):
+        name = draw(nm)
+        if unique_names:
+            k = 2
+            base = name
+            while name in used:
+                name = f"{base}_{k}"
+                k += 1
+        used.add(name)
+        tiers.append(draw(io_tier(style, name, lab, explicit_empty=explicit_empty)))
+    lo = 0.0 if draw(st.integers(0, 3)) > 0 else min(t["minT"] for t in tiers)
+    lo = min([lo] + [t["minT"] for t in tiers])
+    hi = max(t["maxT"] for t in tiers)
+    if hi <= lo:
+        hi = lo + 1.0
+    if clean:
+        if draw(st.integers(0, 3)) == 0:
+            hi2 = hi + 1.0
+            if hi2 > hi:
+                hi = hi2
+        for t in tiers:
+            t["minT"], t["maxT"] = lo, hi
+    else:
+        for t in tiers:
+            if t["maxT"] <= t["minT"]:
+                t["maxT"] = t["minT"] + 1.0
+        hi = max([hi] + [t["maxT"] for t in tiers])
+    return {"tiers": tiers, "minT": lo, "maxT": hi, "style": style}
